@@ -408,7 +408,7 @@ class TraitSet(set):
         # notifiers are transient and should not be copied
         result = TraitSet(
             [copy.deepcopy(x, memo) for x in self],
-            item_validator=copy.deepcopy(self.validator, memo),
+            item_validator=copy.deepcopy(self.item_validator, memo),
             notifiers=[],
         )
 
